@@ -155,3 +155,29 @@ func corruptIntegrity(raw []byte) {
 		off += 4 + (l+3)/4*4
 	}
 }
+
+// AppendAfterIntegrity returns a copy of an authentic STUN message with the given attribute appended BEHIND
+// its MESSAGE-INTEGRITY (where it is covered by nothing) and the FINGERPRINT recomputed - what somebody on
+// the path, who has no credentials, can do to a message in flight. ok is false when the payload is not a
+// STUN message with MESSAGE-INTEGRITY.
+func AppendAfterIntegrity(payload []byte, t stun.AttrType, value []byte) (out []byte, ok bool) {
+	m := &stun.Message{Raw: append([]byte(nil), payload...)}
+	if err := m.Decode(); err != nil || !m.Contains(stun.AttrMessageIntegrity) {
+		return nil, false
+	}
+	n := &stun.Message{}
+	n.Type = m.Type
+	n.TransactionID = m.TransactionID
+	n.WriteHeader()
+	for _, a := range m.Attributes {
+		if a.Type == stun.AttrFingerprint {
+			continue
+		}
+		n.Add(a.Type, a.Value)
+	}
+	n.Add(t, value)
+	if err := stun.Fingerprint.AddTo(n); err != nil {
+		return nil, false
+	}
+	return append([]byte(nil), n.Raw...), true
+}
